@@ -240,3 +240,26 @@ func TestSelfC08UnrelatedFrameSignature(t *testing.T) {
 		t.Fatalf("unexpected: %+v", vs)
 	}
 }
+
+// Met twice in 14 million thorough runs (seed 37): a flood whose first nine bytes are the genuine header and whose second
+// chunk happens to end exactly where the genuine reply would end. What the client has then read is a frame no client
+// could tell from a reply; the flood behind it was never read. No violation - unless the transport offered more in that
+// read and the client chose not to look.
+func TestSelfC08IndistinguishableReply(t *testing.T) {
+	req := Req{FC: 1, Addr: 0, Qty: 16}
+	full := FrameTCP(7, 1, []byte{1, 2, 0xAA, 0x55})
+	got := append(append([]byte(nil), full[:9]...), 0x11, 0x22)
+	sc := &C1{Kind: KTCP, Req: req, Unit: 1, TID: 7, Full: full, Chunks: []Chunk{{N: 9}, {N: 2}, {N: 300}}}
+	if !indistinguishableReply(sc, got) {
+		t.Fatal("a frame with the genuine header ending at a read boundary must be exempt")
+	}
+	sc.Chunks = []Chunk{{N: 9}, {N: 302}}
+	if indistinguishableReply(sc, got) {
+		t.Fatal("no read boundary at the frame end: the client declined to read what was on offer")
+	}
+	sc.Chunks = []Chunk{{N: 9}, {N: 2}, {N: 300}}
+	got[7] = 2
+	if indistinguishableReply(sc, got) {
+		t.Fatal("another function code is distinguishable")
+	}
+}
